@@ -126,6 +126,12 @@ type UP4 struct {
 
 	p4RtTranslator *P4rtTranslator
 
+	// sendMu serializes SendMsgToUPF. Every PFCP association is served by its own goroutine,
+	// while the bookkeeping below (meters, UE address <-> F-SEID maps) and the allocate/write/release
+	// sequences on tunnel peers, applications and counters shared between sessions are not safe
+	// when interleaved. It also guards the maps against the digest listener.
+	sendMu sync.Mutex
+
 	// TODO: create UP4Store object and move these fields there
 	counters []counter
 	// tunnelPeerMu guards concurrent R/W access to tunnel peers,
@@ -538,7 +544,12 @@ func (up4 *UP4) listenToDDNs() {
 			digestData := up4.p4client.GetNextDigestData()
 
 			ueAddr := binary.BigEndian.Uint32(digestData)
-			if fseid, exists := up4.ueAddrToFSEID[ueAddr]; exists {
+
+			up4.sendMu.Lock()
+			fseid, exists := up4.ueAddrToFSEID[ueAddr]
+			up4.sendMu.Unlock()
+
+			if exists {
 				notifier.Notify(fseid)
 			}
 		}
@@ -1475,6 +1486,9 @@ func (up4 *UP4) sendDelete(deleted PacketForwardingRules) error {
 }
 
 func (up4 *UP4) SendMsgToUPF(method upfMsgType, all PacketForwardingRules, updated PacketForwardingRules) uint8 {
+	up4.sendMu.Lock()
+	defer up4.sendMu.Unlock()
+
 	err := up4.tryConnect()
 	if err != nil {
 		logger.PfcpLog.Errorln("UP4 server not connected")
